@@ -75,6 +75,88 @@ class Obj:
         return 'Obj(%r)' % self.tag
 
 
+# ------------------------------------------------------------------ classes made for one case
+import enum as _enum
+
+
+class Color(_enum.Enum):
+    RED = 'red'
+    BLUE = 'blue'
+
+
+class Level(_enum.IntEnum):
+    OFF = 0
+    LOW = 1
+    HIGH = 2
+
+
+class World:
+    """The user-defined classes of ONE case, created afresh for it (so that nothing a class object
+    carries - ABC registrations, caches keyed by class - leaks from one case into the next, and a
+    stored case replays alone exactly as it ran):
+
+      Rec, K0 .. K3, any other name   plain classes; `decl` = [[name, base]...] gives a base class
+      Tagged                          a plain class whose metaclass is a subclass of `type`
+      A0, A1, ...                     subclasses of abc.ABC (virtual subclasses through .register())
+      HasName                         typing.runtime_checkable Protocol with the data member `name`
+      Flagged                         metaclass.__instancecheck__ = hasattr(inst, 'flag')
+
+    objects: tag `Class#id+attr+attr` = the instance `id` of Class with these attributes set."""
+
+    def __init__(self, decl=None):
+        self.decl = {n: b for n, b in (decl or [])}
+        self.classes = {}
+        self.objs = {}
+
+    def cls(self, name):
+        if name in self.classes:
+            return self.classes[name]
+        if name in GLOBAL_TYPES:
+            return GLOBAL_TYPES[name]
+        if name == 'HasName':
+            import typing
+            c = typing.runtime_checkable(
+                type('HasName', (typing.Protocol,), {'__annotations__': {'name': str}, '__module__': __name__}))
+        elif name == 'Flagged':
+            meta = type('FlagMeta', (type,), {'__instancecheck__': lambda cls, inst: hasattr(inst, 'flag')})
+            c = meta('Flagged', (), {})
+        elif name == 'Tagged':
+            meta = type('TagMeta', (type,), {})
+            c = meta('Tagged', (), {})
+        elif name[:1] == 'A' and name[1:].isdigit():
+            import abc
+            c = type(name, (abc.ABC,), {})
+        else:
+            base = self.decl.get(name, 'object')
+            c = type(name, (self.cls(base),), {})
+        self.classes[name] = c
+        return c
+
+    def obj(self, tag):
+        if tag not in self.objs:
+            cname, rest = tag.split('#', 1)
+            parts = rest.split('+')
+            if cname == 'Color':
+                o = Color[parts[0]]
+            else:
+                o = self.cls(cname)()
+                for a in parts[1:]:
+                    setattr(o, a, a)
+                o.__dict__['_vtag'] = tag
+            self.objs[tag] = o
+        return self.objs[tag]
+
+
+WORLD = World()
+
+
+def new_world(decl=None):
+    """called at the start of every run_impl"""
+    global WORLD
+    WORLD = World(decl)
+    return WORLD
+
+
 def dec_v(j):
     if j is None:
         return None
@@ -87,7 +169,7 @@ def dec_v(j):
     if 's' in j:
         return j['s']
     if 'obj' in j:
-        return Obj(j['obj'])
+        return WORLD.obj(j['obj']) if '#' in j['obj'] else Obj(j['obj'])
     if 'l' in j:
         return [dec_v(x) for x in j['l']]
     if 't' in j:
@@ -135,6 +217,11 @@ def enc_v(v):
         return {'d': [[enc_v(k), enc_v(x)] for k, x in v.items()]}
     if type(v) is type(glom.T):
         return {'obj': 'rawT'}
+    if type(v) is Color:
+        return {'obj': 'Color#' + v.name}
+    tag = getattr(v, '__dict__', {}).get('_vtag')
+    if isinstance(tag, str) and WORLD.objs.get(tag) is v:
+        return {'obj': tag}
     raise Unencodable(v)
 
 
@@ -187,8 +274,34 @@ def make_pred(pid, fn):
     return pred
 
 
-TYPES = {'int': int, 'bool': bool, 'float': float, 'str': str, 'list': list, 'tuple': tuple, 'dict': dict,
-         'set': set, 'frozenset': frozenset, 'NoneType': type(None), 'object': object, 'Obj': Obj}
+import collections.abc as _cabc
+import numbers as _numbers
+
+GLOBAL_TYPES = {'int': int, 'bool': bool, 'float': float, 'str': str, 'list': list, 'tuple': tuple, 'dict': dict,
+                'set': set, 'frozenset': frozenset, 'NoneType': type(None), 'object': object, 'Obj': Obj,
+                'Color': Color, 'Level': Level}
+# classes whose metaclass is not `type` (ABCMeta, EnumType, ...): still matched by isinstance, never called
+for _c in (_cabc.Hashable, _cabc.Sized, _cabc.Iterable, _cabc.Container, _cabc.Collection, _cabc.Reversible,
+           _cabc.Sequence, _cabc.MutableSequence, _cabc.Mapping, _cabc.MutableMapping, _cabc.Set,
+           _cabc.MutableSet, _cabc.Callable, _numbers.Number, _numbers.Complex, _numbers.Real,
+           _numbers.Rational, _numbers.Integral):
+    GLOBAL_TYPES[_c.__name__] = _c
+ABC_NAMES = ['Hashable', 'Sized', 'Iterable', 'Container', 'Collection', 'Reversible', 'Sequence',
+             'MutableSequence', 'Mapping', 'MutableMapping', 'Set', 'MutableSet', 'Callable', 'Number',
+             'Complex', 'Real', 'Rational', 'Integral']
+# every type atom the generators use beyond the builtin concrete classes
+META_TYPE_NAMES = ABC_NAMES + ['Color', 'Level', 'Tagged', 'A0']
+INSTANCE_DEPENDENT = ['HasName', 'Flagged']
+
+
+class _Types:
+    """name -> class object: the global catalogue, else a class of the current case's World"""
+
+    def __getitem__(self, name):
+        return WORLD.cls(name)
+
+
+TYPES = _Types()
 
 
 # ------------------------------------------------------------------ spec builder
